@@ -12,6 +12,7 @@ import numpy as np
 from ..simkit import gen, refmodel
 from ..simkit.backends import BackendFault, classes
 from ..simkit.core import WallLimit, call, judge, clear_library_caches, time_limit
+from ..simkit.simalloc import SimAlloc
 
 PID = "C01"
 FAMILIES = ["all", "none", "gateop", "arity", "names", "parity", "nongate"]
@@ -56,7 +57,8 @@ class World:
         "real": ["Circuit (+, to_unitary, split_circuit)", "GateOperation.apply / lifted_matrix / _lift_matrix*",
                  "MultiPhaseOperation.apply", "BaseWavefunctionSimulator.get_wavefunction", "SymbolicSimulator",
                  "all gate classes and wrappers (.matrix is also what the model consumes, as the property words it)"],
-        "stub": ["SplitSim._get_wavefunction_from_native_circuit: reference applier (stub) or operation.apply (real), per run",
+        "stub": ["numpy as seen by the library's modules: a forwarding proxy whose allocating entry points can be made to raise MemoryError at a scheduled allocation (SimAlloc)",
+                 "SplitSim._get_wavefunction_from_native_circuit: reference applier (stub) or operation.apply (real), per run",
                  "SplitSim.is_natively_supported: run-specific predicate", "peer failure injection (BackendFault)"],
         "model": ["state-vector model: tensordot of the gate's own matrix on the listed axes, qubit 0 = MSB"],
     }
@@ -69,7 +71,7 @@ class World:
     PROBES_EXPECTED = ["multi-segment-split", "non-adjacent-indices", "descending-indices", "concat", "append-op",
                        "idle-qubits", "initial-state", "peer-fault", "after-peer-fault", "phase-op", "wrapper-gate",
                        "custom-gate", "empty-circuit", "unitary", "stepwise", "arity>=3", "rejected-request", "inplace-backend",
-                       "symbolic-circuit"]
+                       "symbolic-circuit", "alloc-fault"]
 
     # ------------------------------------------------------------ generation
     def gen_plan(self, seed, tier):
@@ -119,12 +121,18 @@ class World:
                 init = r.choice([None, None, {"basis": r.randrange(2 ** 5)}, {"rand": r.getrandbits(30)}])
                 s = {"op": "wf", "args": {"sim": r.randrange(8), "c": r.randrange(64), "init": init}}
                 if r.random() < pf:
-                    s["fault"] = {"kind": "peer", "at": r.randrange(0, 3)}
+                    s["fault"] = r.choice([{"kind": "peer", "at": r.randrange(0, 3)}, {"kind": "alloc", "at": r.randrange(0, 20)}])
                 steps.append(s)
             elif op == "unitary":
-                steps.append({"op": "unitary", "args": {"c": r.randrange(64)}})
+                s = {"op": "unitary", "args": {"c": r.randrange(64)}}
+                if r.random() < pf / 2:
+                    s["fault"] = {"kind": "alloc", "at": r.randrange(0, 20)}
+                steps.append(s)
             elif op == "stepwise":
-                steps.append({"op": "stepwise", "args": {"c": r.randrange(64), "init": r.choice([None, {"basis": r.randrange(32)}, {"rand": r.getrandbits(30)}])}})
+                s = {"op": "stepwise", "args": {"c": r.randrange(64), "init": r.choice([None, {"basis": r.randrange(32)}, {"rand": r.getrandbits(30)}])}}
+                if r.random() < pf / 2:
+                    s["fault"] = {"kind": "alloc", "at": r.randrange(0, 20)}
+                steps.append(s)
             elif op == "symeval":
                 steps.append(self._gen_symeval(r, cfg))
             elif op == "reject":
@@ -172,13 +180,16 @@ class World:
             else:
                 sims.append(SplitSim(s["family"], s["arg"], s["real_apply"]))
                 sims[-1].inplace = bool(s.get("inplace"))
-        return {"sims": sims, "pool": [], "evals": 0, "after_fault": set(), "interesting": False}
+        return {"sims": sims, "pool": [], "evals": 0, "after_fault": set(), "interesting": False, "alloc": SimAlloc().install()}
 
     def cleanup(self, st):
-        pass
+        st["alloc"].restore()
 
     def step(self, ctx, st, step):
-        getattr(self, "_do_" + step["op"])(ctx, st, step, step["args"])
+        try:
+            getattr(self, "_do_" + step["op"])(ctx, st, step, step["args"])
+        finally:
+            st["alloc"].end_call()  # an allocation fault never outlives the step it was scheduled for
         if st["evals"] >= 2 and st["interesting"]:
             ctx.nontrivial = True
 
@@ -354,7 +365,9 @@ class World:
             if sim.inplace and init is None:
                 ctx.probe("inplace-backend")
         init_copy = None if init is None else init.copy()
+        st["alloc"].begin_call(fault)
         ok, res = call(sim.get_wavefunction, ent["c"], init)
+        alloc_fired = st["alloc"].end_call()
         ctx.called("get_wavefunction:" + type(sim).__name__)
         if is_split:
             sim.arm(None)
@@ -364,6 +377,14 @@ class World:
             ctx.probe("after-peer-fault")
             st["after_fault"].discard(si)
         want, merr = self._model(ctx, ent, init)
+        if alloc_fired:
+            ctx.fault("alloc-fault")
+            ctx.probe("alloc-fault")
+            if not ok:  # the allocation failure was reported (as MemoryError or wrapped): a legal outcome
+                st["after_fault"].add(si)
+                ctx.log("wf", "alloc-fault", sim=si)
+                return
+            ctx.probe("alloc-fault-survived")  # the library coped: its answer is judged like any other
         if not ok and isinstance(res, BackendFault):
             ctx.fault("peer-fault")
             ctx.probe("peer-fault")
@@ -414,7 +435,14 @@ class World:
             ctx.log("unitary", "noop")
             return
         n = ent["n"]
+        st["alloc"].begin_call(step.get("fault"))
         ok, u = call(ent["c"].to_unitary)
+        if st["alloc"].end_call():
+            ctx.fault("alloc-fault")
+            ctx.probe("alloc-fault")
+            if not ok:
+                ctx.log("unitary", "alloc-fault")
+                return
         ctx.called("Circuit.to_unitary")
         cols, merr = [], None
         for j in range(2 ** n):
@@ -448,8 +476,17 @@ class World:
         init = self._init_state(a["init"] or {"basis": 0}, n, None)
         state = init.copy()
         want = init.copy()
+        st["alloc"].begin_call(step.get("fault"))
         for k, o in enumerate(ent["ops"]):
+            prev = state
             ok, state = call(o.apply, state)
+            if st["alloc"].fired:
+                st["alloc"].end_call()
+                ctx.fault("alloc-fault")
+                ctx.probe("alloc-fault")
+                if not ok:
+                    ctx.log("stepwise", "alloc-fault", at=k)
+                    return
             u = ent["mats"][k]
             okm, want = (call(refmodel.apply_matrix, want, u, list(o.qubit_indices), n) if u is not None
                          else call(refmodel.apply_op, want, o, n))
@@ -463,6 +500,7 @@ class World:
                 err = float(np.max(np.abs(got - want)))
                 ctx.check(err <= 1e-9 * (1 + k) * max(1.0, float(np.max(np.abs(want)))), "refine", "stepwise",
                           lambda: f"after op {k} ({o}) state differs from model by {err:.3e}")
+        st["alloc"].end_call()
         st["evals"] += 1
         ctx.probe("stepwise")
         ctx.log("stepwise", "ok", n=n, n_ops=len(ent["ops"]))
